@@ -16,7 +16,7 @@ theorem register_string_ok (r r' : Registry) (name src : Str)
     ∃ t, compile2 src { name := some name, isPartial := false, preventIndent := r.preventIndent } = .ok t ∧
       assocGet r'.templates name = some t ∧
       (∀ q, q ≠ name → assocGet r'.templates q = assocGet r.templates q) ∧
-      r'.sources = r.sources ∧ r'.dev = r.dev ∧ r'.preventIndent = r.preventIndent ∧ r'.strict = r.strict := by
+      r'.sources = assocRemove r.sources name ∧ r'.dev = r.dev ∧ r'.preventIndent = r.preventIndent ∧ r'.strict = r.strict := by
   unfold Registry.registerTemplateString at h
   split at h <;> try (cases h)
   rename_i t ht
@@ -63,7 +63,7 @@ theorem dev_off_stops_tracking (r : Registry) : (r.setDevMode false).sources = [
 /-- sources are recorded only in dev mode: with dev mode off the content at registration is used -/
 theorem file_registration_tracks_iff_dev (r r' : Registry) (fs : FS) (name path : Str)
     (h : r.registerTemplateFile fs name path = .ok r') :
-    (r.dev = true → assocGet r'.sources name = some path) ∧ (r.dev = false → r'.sources = r.sources) := by
+    (r.dev = true → assocGet r'.sources name = some path) ∧ (r.dev = false → assocGet r'.sources name = none) := by
   unfold Registry.registerTemplateFile at h
   cases hc : assocGet fs path with
   | none => rw [hc] at h; cases h
@@ -83,7 +83,7 @@ theorem file_registration_tracks_iff_dev (r r' : Registry) (fs : FS) (name path 
       · intro hdev
         have hd1 : r1.dev = false := by rw [hd]; exact hdev
         rw [← h]
-        simp [hd1, hs]
+        simp [hd1, hs, assocGet_remove_same]
     | err e => rw [h1] at h; cases h
     | panic p => rw [h1] at h; cases h
     | fuel => rw [h1] at h; cases h
@@ -113,13 +113,13 @@ theorem untracked_uses_registered (r : Registry) (fs : FS) (name : Str) (t : Tmp
     r.getOrLoad fs name = .ok t := by
   simp [Registry.getOrLoad, Registry.getOrLoadOptional, hd, ht]
 
-/-- NEGATION WITNESS (known finding F6): in dev mode, `register_template_string` over a name
-    tracked from a file leaves the stale source entry, so the FILE keeps winning at render time. -/
-theorem string_over_tracked_keeps_source (r r' : Registry) (name src path : Str)
-    (hs : assocGet r.sources name = some path)
-    (h : r.registerTemplateString name src = .ok r') : assocGet r'.sources name = some path := by
+/-- registering a string template over a name tracked from a file STOPS tracking the file: the last
+    successfully registered template wins (this failed before the repair recorded in
+    known_findings.json as `fixed: property=C17`) -/
+theorem string_over_tracked_stops_tracking (r r' : Registry) (name src : Str)
+    (h : r.registerTemplateString name src = .ok r') : assocGet r'.sources name = none := by
   obtain ⟨_, _, _, _, hsrc, _⟩ := register_string_ok r r' name src h
-  rw [hsrc]; exact hs
+  rw [hsrc]; exact assocGet_remove_same _ _
 
 /-- a cloned registry is a value: operations on one copy cannot affect the other (the model's
     registries are immutable values; stated for `registerTemplate`) -/
